@@ -17,6 +17,7 @@ type resQuery struct {
 	From string `json:"from"`
 	Spec string `json:"spec"`
 	Kind string `json:"kind"`
+	Then string `json:"then,omitempty"` // second hop: resolved from the file the first hop resolved to
 }
 type resCase struct {
 	Files   map[string]string `json:"files"`
@@ -164,8 +165,41 @@ func c11PkgTree(pkgJSON string, layout string) map[string]string {
 	return files
 }
 
+// c11SymlinkTrees: packages reached through a symlink (pnpm / npm link / workspaces) whose entry lies in a real
+// sub-directory; a dependency exists both next to the link and next to the real package. Node loads modules under their
+// real paths, so the second hop must find the dependency next to the real package.
+func c11SymlinkTrees() []c11Tree {
+	var trees []c11Tree
+	for _, pj := range []string{`{"name":"pkg","main":"lib/index.js"}`, `{"name":"pkg","exports":{".":"./lib/index.js","./lib/*":"./lib/*"}}`, `{"name":"pkg","main":"index.js"}`} {
+		files := map[string]string{
+			"proj/src/importer.js":               "0",
+			"proj/node_modules/pkg":              "SYMLINK:../../store/pkg",
+			"proj/node_modules/dep/package.json": `{"name":"dep","main":"index.js"}`,
+			"proj/node_modules/dep/index.js":     "proj dep",
+			"store/pkg/package.json":             pj,
+			"store/pkg/index.js":                 "root index",
+			"store/pkg/lib/index.js":             "lib index",
+			"store/pkg/lib/other.js":             "lib other",
+			"store/pkg/lib/deep/x.js":            "deep",
+			"store/node_modules/dep/package.json": `{"name":"dep","main":"index.js"}`,
+			"store/node_modules/dep/index.js":     "store dep",
+			"proj/linkdir":                        "SYMLINK:../store/pkg/lib",
+		}
+		var qs []resQuery
+		for _, k := range []string{"import", "require"} {
+			qs = append(qs, resQuery{From: "proj/src", Spec: "pkg", Kind: k, Then: "dep"}, resQuery{From: "proj/src", Spec: "pkg", Kind: k, Then: "./other.js"},
+				resQuery{From: "proj/src", Spec: "pkg/lib/other.js", Kind: k, Then: "dep"}, resQuery{From: "proj/src", Spec: "pkg/lib/deep/x.js", Kind: k, Then: "dep"},
+				resQuery{From: "proj/src", Spec: "../linkdir/other.js", Kind: k, Then: "dep"}, resQuery{From: "proj/src", Spec: "../linkdir/deep/x.js", Kind: k, Then: "../index.js"},
+				resQuery{From: "proj/src", Spec: "pkg", Kind: k}, resQuery{From: "proj/src", Spec: "dep", Kind: k})
+		}
+		trees = append(trees, c11Tree{"symlinked package, entry in a sub-directory, two hops: " + pj, files, qs})
+	}
+	return trees
+}
+
 func c11Trees(tier string) []c11Tree {
 	var trees []c11Tree
+	trees = append(trees, c11SymlinkTrees()...)
 	shapes := c11ExportShapes(tier)
 	layouts := []string{"hoisted", "nested", "scoped", "symlinked", "shadowed"}
 	for si, sh := range shapes {
@@ -193,7 +227,7 @@ func c11Trees(tier string) []c11Tree {
 						spec = "@scope/" + sp
 					}
 					for _, k := range []string{"import", "require"} {
-						qs = append(qs, resQuery{from, spec, k})
+						qs = append(qs, resQuery{from, spec, k, ""})
 					}
 				}
 				trees = append(trees, c11Tree{fmt.Sprintf("exports=%s layout=%s extra=%s", sh, layout, extra), files, qs})
@@ -215,9 +249,9 @@ func c11Trees(tier string) []c11Tree {
 					spec = "@scope/" + sp
 				}
 				// ESM resolution of extensionless / directory subpaths is outside the statement; require only there
-				qs = append(qs, resQuery{from, spec, "require"})
+				qs = append(qs, resQuery{from, spec, "require", ""})
 				if strings.HasSuffix(sp, ".js") || strings.HasSuffix(sp, ".json") || strings.HasSuffix(sp, ".mjs") || sp == "pkg" {
-					qs = append(qs, resQuery{from, spec, "import"})
+					qs = append(qs, resQuery{from, spec, "import", ""})
 				}
 			}
 			trees = append(trees, c11Tree{fmt.Sprintf("pkg=%s layout=%s", pj, layout), files, qs})
@@ -230,12 +264,12 @@ func c11Trees(tier string) []c11Tree {
 		var qs []resQuery
 		for _, sp := range c11ImportSpecs {
 			for _, k := range []string{"import", "require"} {
-				qs = append(qs, resQuery{"src", sp, k}, resQuery{"src/deep/dir", sp, k})
+				qs = append(qs, resQuery{"src", sp, k, ""}, resQuery{"src/deep/dir", sp, k, ""})
 			}
 		}
 		for _, sp := range []string{"root", "root/feature", "root/missing", "root/src/a.js"} {
 			for _, k := range []string{"import", "require"} {
-				qs = append(qs, resQuery{"src", sp, k})
+				qs = append(qs, resQuery{"src", sp, k, ""})
 			}
 		}
 		trees = append(trees, c11Tree{"imports=" + sh, files, qs})
@@ -244,9 +278,9 @@ func c11Trees(tier string) []c11Tree {
 		files := c11PkgTree(`{"name":"pkg"}`, "hoisted")
 		var qs []resQuery
 		for _, sp := range []string{"./rel.js", "./rel", "./rel/", "./rel/index.js", "../up.js", "../up", "./data.json", "./data", "./missing.js", "./a.js", "./a", "./p/q.js", "./deep/dir/importer.js", ".", "./", "..", "./rel.js?query", "./rel.js#hash", "./p/../a.js", "./%61.js"} {
-			qs = append(qs, resQuery{"src", sp, "require"})
+			qs = append(qs, resQuery{"src", sp, "require", ""})
 			if strings.Contains(sp, ".js") {
-				qs = append(qs, resQuery{"src", sp, "import"})
+				qs = append(qs, resQuery{"src", sp, "import", ""})
 			}
 		}
 		trees = append(trees, c11Tree{"relative-specifiers", files, qs})
@@ -299,6 +333,10 @@ func runC11(c *Check) {
 								kind = api.ResolveJSRequireCall
 							}
 							r := b.Resolve(q.Spec, api.ResolveOptions{ResolveDir: filepath.Join(dir, q.From), Kind: kind, Importer: filepath.Join(dir, q.From, "__importer.js")})
+							if q.Then != "" && len(r.Errors) == 0 && !r.External {
+								// second hop from the path exactly as esbuild reported it
+								r = b.Resolve(q.Then, api.ResolveOptions{ResolveDir: filepath.Dir(r.Path), Kind: kind, Importer: r.Path, Namespace: "file"})
+							}
 							a := ans{}
 							if len(r.Errors) > 0 {
 								for _, e := range r.Errors {
